@@ -85,6 +85,8 @@ def build(spec):
                 c = 'i'
             if c == 'i':
                 p['ignore'] = True
+            if c == 'f':
+                p['ignore'] = False      # explicitly shown (`Debug = true`, `ignore = false`, `ignore(false)`)
             if c in 'rb':
                 p['name'] = f'k{i}'
             if c in 'mb':
@@ -322,6 +324,9 @@ def gen_specs(tier, seed):
         specs.append(Spec('enum', True, [dict(kind='tuple', vname='Rv', nf=True, fields=['i', 'l']), dict(U)]))
         specs.append(Spec('struct', None, [dict(kind='tuple', vname=None, nf=None, fields=['i', 'p', 'm'])], True))
         specs.append(Spec('struct', False, [dict(kind='tuple', vname=None, nf=None, fields=['p', 'i', 'p'])], True))
+        specs.append(Spec('struct', None, [dict(kind='named', vname=None, nf=None, fields=['f', 'i', 'p'])]))
+        specs.append(Spec('struct', 'Rn', [dict(kind='tuple', vname=None, nf=None, fields=['f', 'f'])], True))
+        specs.append(Spec('enum', None, [dict(kind='named', vname=None, nf=None, fields=['f', 'm']), dict(kind='tuple', vname=None, nf=None, fields=['i', 'f']), dict(kind='tuple', vname='Rv', nf=True, fields=['f'])]))
         specs.append(Spec('struct', None, [dict(kind='named', vname=None, nf=None, fields=['p', 'x', 'm'])]))
         specs.append(Spec('enum', None, [dict(kind='tuple', vname=None, nf=None, fields=['x', 'p']), dict(kind='named', vname=None, nf=None, fields=['r', 'x'])]))
         # degenerate shapes: zero-field structs and variants (a name must be shown), flipped named_field on them
